@@ -73,6 +73,36 @@ func (fr *Frame) call(st *State, call ssa.CallInstruction) []Term {
 			k = extKey(fn)
 		}
 		vc.recordCallArgs(k, args, ats)
+		// elements of a variadic argument at the time of the call (callargelem(key, i, j))
+		if vc.callArgElems == nil {
+			vc.callArgElems = map[string]map[int][]cval{}
+		}
+		for _, kk := range []string{k, fmt.Sprintf("%s#%d", k, vc.argCount[k])} {
+			if _, seen := vc.callArgElems[kk]; seen {
+				continue
+			}
+			m := map[int][]cval{}
+			for i, a := range c.Args {
+				sl, ok := a.(*ssa.Slice)
+				if !ok || sl.Low != nil || sl.High != nil {
+					continue
+				}
+				al, ok := sl.X.(*ssa.Alloc)
+				if !ok {
+					continue
+				}
+				at, ok := al.Type().Underlying().(*types.Pointer).Elem().Underlying().(*types.Array)
+				if !ok || at.Len() > 6 || i >= len(args) {
+					continue
+				}
+				var es []cval
+				for j := int64(0); j < at.Len(); j++ {
+					es = append(es, cval{vc.loadT(st, vc.elemAddr(vc.sptr(args[i]), IntLit(j)), at.Elem()), vc.ctOf(at.Elem())})
+				}
+				m[i] = es
+			}
+			vc.callArgElems[kk] = m
+		}
 		// the static type boxed into an interface argument (callarg(key, i, "dyn"))
 		if vc.callArgDyn == nil {
 			vc.callArgDyn = map[string][]cval{}
